@@ -58,6 +58,9 @@ func (m *c30model) compare(off int64, got []byte) (int64, bool) {
 func TestVerif_C30(t *testing.T) {
 	r := verifrt.Start(t, "C30")
 	defer r.Finish()
+	// a pipe whose buffer chain has been corrupted can make an operation walk it forever
+	// (see verifrt.CaseCPUBudget; a case takes well under a millisecond)
+	r.CaseCPUBudget(60, "case-never-finishes:pipe-operation-spins")
 	r.SetRule("one case = one history of 40 PRNG ops on a fresh pipe whose window is first moved to a PRNG origin (0 .. 2^61): writeAt (before start / straddling start / inside / at end / past end leaving a gap; 0..3.2 chunks long, biased to chunk boundaries +-1), read/copy of sub-ranges, peek, discardBefore (inside a chunk, exactly on a chunk boundary, at end, past end), availableBuffer + direct fill + end bump as Stream's fast path does (optionally with a discard in between); after every mutating op start/end and the WHOLE window are compared with the model. non-trivial = history with a write crossing a chunk boundary AND an out-of-order write (gap or overwrite inside the window) AND a discard that left live bytes; distinct by hash of the op list")
 	r.Assume("callers respect the documented contract: read/copy ranges lie inside [start,end); peek(n) with n <= end-start; discardBefore offsets never move backwards; the availableBuffer fast path fills only the returned slice and no writeAt happens before the end bump (Stream flushes first)")
 
